@@ -13,11 +13,11 @@ else (cd "$D" && git apply "$P") || { echo "git apply failed"; rm -rf "$D"; exit
 # leak into checks that run concurrently against /repo
 L=/tmp/lean-mut-$$; rm -rf "$L"; cp -r /verif/lean "$L"
 for c in "$@"; do
-  out=$(cd /verif && VERIF_REPO="$D" VERIF_LEAN="$L" VERIF_WORK="/tmp/work-mut-$$" VERIF_BINTAG="mut-$c" ./check "$c" 2>&1 | grep -E "^VIOLATION|ok \(|MACHINERY" | head -3 | tr '\n' ' ')
+  out=$(cd /verif && VERIF_REPO="$D" VERIF_LEAN="$L" VERIF_WORK="/tmp/work-mut-$$" VERIF_BINTAG="mut-$$-$c" ./check "$c" 2>&1 | grep -E "^VIOLATION|ok \(|MACHINERY" | head -3 | tr '\n' ' ')
   echo "$c: $out"
   for r in /tmp/work-mut-$$/replays/$c-*.json; do
     [ -f "$r" ] && python3 /verif/tools/showreplay.py "$r"
   done
 done
 rm -rf "$D" "$L" /tmp/work-mut-$$
-rm -rf /verif/harness/bin/mut-*
+rm -rf /verif/harness/bin/mut-$$-*
